@@ -33,6 +33,8 @@ def main():
     ap.add_argument("--checks", default="")
     ap.add_argument("--needs", default="")
     ap.add_argument("--name", default="")
+    ap.add_argument("--no-suite", action="store_true", help="phase A only: demos + quick check, nothing is filed under seeded/")
+    ap.add_argument("--jobs", default="")
     a = ap.parse_args()
     name = a.name or f"{a.pid}-{a.i}"
     patch = os.path.join(a.agent_dir, f"patch{a.i}.diff")
@@ -56,7 +58,7 @@ def main():
         rec["ran"].append({"cmd": "demo with patch", "rc": rc1, "tail": out1[-400:]})
         tests = "tests" if a.full else " ".join(t for t in a.tests.split(",") if t)
         t0 = time.time()
-        rct, outt = sh(f"/venv/bin/python -m pytest -q -p no:cacheprovider --timeout=900 {tests}", cwd=wt, env=env)
+        rct, outt = (-1, "skipped") if a.no_suite else sh(f"/venv/bin/python -m pytest -q -p no:cacheprovider --timeout=1800 -n 5 {tests}", cwd=wt, env=env)
         rec["ran"].append({"cmd": f"pytest {tests} (with patch)", "rc": rct, "tail": outt.strip().splitlines()[-1] if outt.strip() else "", "failed": [l for l in outt.splitlines() if l.startswith("FAILED") or "Timeout" in l][:5], "wall": round(time.time() - t0)})
         checks = [c for c in (a.checks or a.pid).split(",") if c]
         caught = {}
@@ -64,7 +66,7 @@ def main():
             if not os.path.exists(os.path.join(V, "checks", f"{c}.py")):
                 caught[c] = "no check yet"
                 continue
-            rcc, outc = sh(f"/venv/bin/python run.py {c} --tier quick --src {wt}/src", cwd=V)
+            rcc, outc = sh(f"/venv/bin/python run.py {c} --tier quick --src {wt}/src" + (f" --jobs {a.jobs}" if a.jobs else ""), cwd=V)
             caught[c] = {"rc": rcc, "lines": [l for l in outc.splitlines() if l.startswith(("VIOLATION", "  fingerprint", "ERROR"))][:4]}
         rec["checks_quick"] = caught
         rec["confirmed"] = bool(rc0 == 0 and rc1 != 0 and rct == 0)
